@@ -203,6 +203,41 @@ Definition copytee (h : hist) : hist * hist := (h, h).
 Definition pipeline (f : A -> list A) (p : A -> bool) (size : nat) (h : hist) : hist :=
   sortb (filteron p size (wmap f h)).
 
+(** ---- round 2 combinators ----------------------------------------------------------------------- *)
+
+(** Split used directly: n consumers (the iterator and its n-1 Split clones) read the SAME channel; the
+    k-th batch that goes through the channel is received by exactly one of them, [assign k] (chosen by
+    the scheduler); consumer i sees its batches in channel order. *)
+Definition split_recv (h : hist) (assign : list nat) (i : nat) : hist :=
+  map fst (filter (fun bj : batch * nat => Nat.eqb (snd bj) i) (combine h assign)).
+
+(** Speed (progress bar) and LimitMemory forward every batch unchanged, in arrival order. *)
+Definition forward (h : hist) : hist := h.
+
+(** Load: every record of every batch appended IN ARRIVAL ORDER (no SortBatches: the callers sort first);
+    CompleteFileIterator: the result of Load as ONE batch numbered 0, no batch at all for no record. *)
+Definition load (h : hist) : list A := flatten h.
+Definition completefile (h : hist) : hist :=
+  match load h with [] => [] | l => [(0, l)] end.
+
+(** MakeIConditionalWorker (SeqToSliceConditionalWorker): the worker is applied to the records that
+    satisfy the condition; the records that do NOT satisfy it are NOT forwarded (as written in
+    pkg/obiseq/worker.go: no else branch). *)
+Definition cond_worker (c : A -> bool) (f : A -> list A) (x : A) : list A := if c x then f x else [].
+
+(** paired streams: every record carries its mate ([mate]); FilterOn tests the forward record only,
+    FilterAnd requires the predicate on both mates; the pair stays together (the mate is reached
+    through the forward record), so the stream of mates is [map mate] of the stream of records. *)
+Definition filterand_paired (mate : A -> A) (p : A -> bool) (size : nat) (h : hist) : hist :=
+  filteron (fun x => p x && p (mate x)) size h.
+(** PairedWith: each batch replaced by the batch of the mates, number kept, arrival order kept. *)
+Definition pairedwith (mate : A -> A) (h : hist) : hist := map (on_items (map mate)) h.
+
+(** dispatcher path of obidistribute: every output of Distribute goes through an order-sensitive
+    consumer (Rebatch here: SortBatches + regrouping) *)
+Definition distribute_rebatch (code : A -> nat) (size size2 : nat) (h : hist) : list (nat * hist) :=
+  map (fun kr => (fst kr, rebatch size2 (snd kr))) (distribute code size h).
+
 (** ---- worker pool (MakeISliceWorker with n workers sharing the input channel through Split):
     worker i is idle ([None]) or holds a batch; [Take i]: idle worker i receives the next batch of the
     input channel; [Emit i]: worker i pushes [worker(batch)] with the SAME number and becomes idle. *)
@@ -257,6 +292,15 @@ Fixpoint list_eqb (a b : list X) : bool :=
   | x :: a', y :: b' => eqb x y && list_eqb a' b'
   | _, _ => false
   end.
+(** [a] is a subsequence of [b] (greedy matching) *)
+Fixpoint subseqb (a b : list X) : bool :=
+  match b with
+  | [] => match a with [] => true | _ => false end
+  | y :: b' => match a with
+               | [] => true
+               | x :: a' => if eqb x y then subseqb a' b' else subseqb a b'
+               end
+  end.
 End PermB.
 
 End Generic.
@@ -272,7 +316,9 @@ Arguments acc0 {A}. Arguments acc_add {A}. Arguments acc_check {A}. Arguments ac
 Arguments rebatch_step {A}. Arguments rb_batch {A}. Arguments rebatch_loop {A}.
 Arguments mkp {A}. Arguments p_queue {A}. Arguments p_infl {A}. Arguments p_emit {A}.
 Arguments pstep {A}. Arguments prun {A}. Arguments pinit {A}. Arguments pidle {A}.
-Arguments remove1 {X}. Arguments perm_eqb {X}. Arguments list_eqb {X}.
+Arguments remove1 {X}. Arguments perm_eqb {X}. Arguments list_eqb {X}. Arguments subseqb {X}.
+Arguments split_recv {A}. Arguments forward {A}. Arguments load {A}. Arguments completefile {A}. Arguments cond_worker {A}.
+Arguments filterand_paired {A}. Arguments pairedwith {A}. Arguments distribute_rebatch {A}.
 
 Section Frag.
 Variable B : Type.
@@ -343,7 +389,10 @@ Definition wfN (m i : N) : list N :=
 Definition predN (m i : N) : bool := N.eqb (N.modulo i m) 0.
 Definition codeN (m i : N) : nat := N.to_nat (N.modulo i m).
 
-Inductive opk := OSource | OSort | ORebatch | OFilterEmpty | OFilterOn | ODivideOn | ODistribute | OConcat
+Definition mateN (i : N) : N := (1000 + N.modulo (i * 7 + i / 3) 50)%N.
+
+Inductive opk := OSplit | OForward | OLoad | OLoadSorted | OCompleteFile | OCompleteFileSorted | OCondWorker | OCondWorkerSorted
+               | OFilterOnP | OFilterAndP | OPairedWith | ODistRebatch | OSource | OSort | ORebatch | OFilterEmpty | OFilterOn | ODivideOn | ODistribute | OConcat
                | OConcatSorted | OPool | OWorker | OWorkerSorted | OBatchOver | OCopyTee | OPipeline | OReadFiles | OReadFilesPar | OPairTo | OMerge | OFragments (minsize len overlap : nat).
 Inductive okind := KOk | KPanic | KHang | KFatal.
 Definition histN := list (nat * list N).
@@ -374,6 +423,30 @@ Definition agrees (c : ccase) : bool :=
     let h := stream0 c in
     let one (m : histN) := outs_eqb (c_outs c) [(0, m)] in
     match c_op c with
+    | OSplit =>   (* observed: one stream per consumer; every batch received by exactly one consumer, each in channel order *)
+        perm_eqb batchN_eqb (concat (map snd (c_outs c))) h &&
+        forallb (fun o : nat * histN => subseqb batchN_eqb (snd o) h) (c_outs c)
+    | OForward => one (forward h)
+    | OLoad => one [(0, load h)]
+    | OLoadSorted => one [(0, load (sortb h))]
+    | OCompleteFile => one (completefile h)
+    | OCompleteFileSorted => one (completefile (sortb h))
+    | OCondWorker => match c_outs c with
+                     | [(0, o)] => perm_eqb batchN_eqb o (wmap (cond_worker (predN (c_mod2 c)) (wfN (c_mod c))) h)
+                     | _ => false
+                     end
+    | OCondWorkerSorted => one (sortb (wmap (cond_worker (predN (c_mod2 c)) (wfN (c_mod c))) h))
+    | OFilterOnP =>    (* key 0: the records, key 1: the mates they are linked to *)
+        let r := filteron (predN (c_mod c)) (c_size c) h in
+        outs_eqb (c_outs c) [(0, r); (1, pairedwith mateN r)]
+    | OFilterAndP =>
+        let r := filterand_paired mateN (predN (c_mod c)) (c_size c) h in
+        outs_eqb (c_outs c) [(0, r); (1, pairedwith mateN r)]
+    | OPairedWith => outs_eqb (c_outs c) [(0, pairedwith mateN h); (1, h)]
+    | ODistRebatch =>
+        let d := distribute_rebatch (codeN (c_mod c)) (c_size c) (N.to_nat (c_mod2 c)) h in
+        list_eqb Nat.eqb (c_news c) (map fst d) && Nat.eqb (length (c_outs c)) (length d) &&
+        forallb (fun kv => match assoc (fst kv) d with Some m => histN_eqb (snd kv) m | None => false end) (c_outs c)
     | OSource => one h
     | OSort => one (sortb h)
     | ORebatch => one (rebatch_loop (c_size c) h)
@@ -430,3 +503,274 @@ Fixpoint mismatches_from (i : nat) (l : list ccase) : list nat :=
   | c :: l' => let rest := mismatches_from (S i) l' in if agrees c then rest else i :: rest
   end.
 Definition mismatches := mismatches_from 0.
+
+
+(** ================================================================================================
+    Round 2 — the close protocol of the channel iterators as PROCESSES over Go's primitives.
+    Every combinator is an instance: its goroutines are producers (Push on some iterators, then Done on
+    the WaitGroups they are registered on), closers (Wait on a group, then Close the iterators it
+    protects: WaitAndClose, the closer of DivideOn / CopyTee / Distribute) and consumers (Split clones,
+    readers: they observe the end of a channel once it is closed).  [gact_step] is Go's semantics of
+    one action (the only trusted part); Proofs.v shows that for every well-formed instance EVERY
+    maximal run closes every iterator exactly once, after its last push, without panic or deadlock.
+    The real iterators log their events under the verif tag; [trace_ok] reads the per-goroutine programs
+    off a recorded trace, checks that they form a well-formed instance and that the trace is a complete
+    run of the transition system. *)
+(** shared state: WaitGroup counter of every group, closed flag and number of pushes of every iterator *)
+Record gstate := mkg { g_wg : nat -> nat; g_closed : nat -> bool; g_pushed : nat -> nat }.
+Definition upd {X} (f : nat -> X) (k : nat) (v : X) : nat -> X := fun x => if Nat.eqb x k then v else f x.
+
+(** a goroutine of a combinator, as the program it still has to run *)
+Inductive proc :=
+| Producer (pushes : list nat) (dones : list nat)          (* Push on these iterators, in this order, then Done on each of these groups *)
+| Closer (closes : list nat) (segs : list (nat * list nat)) (* Close these (their group has been waited for), then for each segment: Wait g; Close each iterator *)
+| Consumer (ends : list nat).                              (* a Split clone / reader: observes the end of these iterators, one after the other *)
+
+Inductive gact := GPush (it : nat) | GDone (g : nat) | GWait (g : nat) | GClose (it : nat) | GEnd (it : nat).
+
+Definition head_act (p : proc) : option (gact * proc) :=
+  match p with
+  | Producer (it :: ps) ds => Some (GPush it, Producer ps ds)
+  | Producer [] (g :: ds) => Some (GDone g, Producer [] ds)
+  | Producer [] [] => None
+  | Closer (it :: cs) segs => Some (GClose it, Closer cs segs)
+  | Closer [] ((g, its) :: segs) => Some (GWait g, Closer its segs)
+  | Closer [] [] => None
+  | Consumer (it :: es) => Some (GEnd it, Consumer es)
+  | Consumer [] => None
+  end.
+
+(** Go's semantics of one action: send on a closed channel, close of a closed channel and a negative
+    WaitGroup counter panic; Wait blocks while the counter is positive; a receiver sees the end of the
+    channel only once it is closed *)
+Inductive outcome := Panic | Blocked | Next (s : gstate).
+Definition gact_step (s : gstate) (a : gact) : outcome :=
+  match a with
+  | GPush it => if g_closed s it then Panic
+                else Next (mkg (g_wg s) (g_closed s) (upd (g_pushed s) it (S (g_pushed s it))))
+  | GDone g => match g_wg s g with
+               | O => Panic
+               | S w => Next (mkg (upd (g_wg s) g w) (g_closed s) (g_pushed s))
+               end
+  | GWait g => match g_wg s g with O => Next s | S _ => Blocked end
+  | GClose it => if g_closed s it then Panic
+                 else Next (mkg (g_wg s) (upd (g_closed s) it true) (g_pushed s))
+  | GEnd it => if g_closed s it then Next s else Blocked
+  end.
+
+Definition cfg := (gstate * list proc)%type.
+(** label i: goroutine i runs its next action *)
+Definition cstep (c : cfg) (i : nat) : option cfg :=
+  match nth_error (snd c) i with
+  | Some p => match head_act p with
+              | Some (a, p') => match gact_step (fst c) a with
+                                | Next s' => Some (s', set_nth i p' (snd c))
+                                | _ => None
+                                end
+              | None => None
+              end
+  | None => None
+  end.
+Fixpoint crun (c : cfg) (ls : list nat) : option cfg :=
+  match ls with [] => Some c | i :: ls' => match cstep c i with Some c' => crun c' ls' | None => None end end.
+Definition can_panic (c : cfg) : bool :=
+  existsb (fun p => match head_act p with
+                    | Some (a, _) => match gact_step (fst c) a with Panic => true | _ => false end
+                    | None => false
+                    end) (snd c).
+Definition pfinished (p : proc) : bool := match head_act p with None => true | Some _ => false end.
+Definition cfinished (c : cfg) : bool := forallb pfinished (snd c).
+
+Definition proc_pushes (p : proc) : list nat := match p with Producer ps _ => ps | _ => [] end.
+Definition proc_dones (p : proc) : list nat := match p with Producer _ ds => ds | _ => [] end.
+Definition proc_closes (p : proc) : list nat :=
+  match p with Closer cs segs => cs ++ concat (map snd segs) | _ => [] end.
+Definition proc_size (p : proc) : nat :=
+  match p with
+  | Producer ps ds => length ps + length ds
+  | Closer cs segs => length cs + length segs + length (concat (map snd segs))
+  | Consumer es => length es
+  end.
+Definition cmeasure (c : cfg) : nat := list_sum (map proc_size (snd c)).
+
+(** initial state: Add before the goroutines are spawned — the counter of a group is the number of Done
+    that the producers will call on it; nothing closed, nothing pushed *)
+Definition cinit (procs : list proc) : cfg :=
+  (mkg (fun g => count_occ Nat.eq_dec (concat (map proc_dones procs)) g) (fun _ => false) (fun _ => 0), procs).
+
+Definition memb (x : nat) (l : list nat) : bool := existsb (Nat.eqb x) l.
+Fixpoint nodupb (l : list nat) : bool :=
+  match l with [] => true | x :: l' => negb (memb x l') && nodupb l' end.
+
+(** well-formed protocol instance: [guard it] is the group whose counter protects iterator [it];
+    - a producer pushes only on iterators whose guard it will call Done on afterwards (it is registered);
+    - a closer closes an iterator only after a Wait on its guard, in the same goroutine;
+    - every iterator of [iters] is closed by exactly one Close overall;
+    - consumers and producers only touch iterators of [iters]. *)
+Definition wf_proc (guard : nat -> nat) (iters : list nat) (p : proc) : bool :=
+  match p with
+  | Producer ps ds => forallb (fun it => memb it iters && memb (guard it) ds) ps
+  | Closer cs segs => match cs with [] => true | _ => false end &&
+                      forallb (fun seg => forallb (fun it => Nat.eqb (guard it) (fst seg)) (snd seg)) segs
+  | Consumer es => forallb (fun it => memb it iters) es
+  end.
+Definition wf_cfg (guard : nat -> nat) (iters : list nat) (procs : list proc) : bool :=
+  forallb (wf_proc guard iters) procs &&
+  let closes := concat (map proc_closes procs) in
+  nodupb closes && forallb (fun it => memb it closes) iters && forallb (fun it => memb it iters) closes.
+
+(** ---- protocol traces of the real iterators (hook pkg/obiiter/verif2_c03.go): events
+    (goroutine, object, kind, n) in log order; kinds: 0 New iterator, 1 Add n, 2 Done, 3 Wait returned,
+    4 Push, 5 Close, 6 End observed by a consumer, 7 Guard n (the iterator is protected by group n),
+    8 New bare WaitGroup.  An iterator is its own group unless a Guard event says otherwise. *)
+Definition tev := (nat * nat * nat * nat)%type.
+Definition ev_gid (e : tev) := fst (fst (fst e)).
+Definition ev_id (e : tev) := snd (fst (fst e)).
+Definition ev_kind (e : tev) := snd (fst e).
+Definition ev_n (e : tev) := snd e.
+
+Definition tr_iters (tr : list tev) : list nat :=
+  flat_map (fun e => if Nat.eqb (ev_kind e) 0 then [ev_id e] else []) tr.
+Definition tr_guard (tr : list tev) (it : nat) : nat :=
+  fold_left (fun g e => if Nat.eqb (ev_kind e) 7 && Nat.eqb (ev_id e) it then ev_n e else g) tr it.
+Definition tr_adds (tr : list tev) (g : nat) : nat :=
+  list_sum (map (fun e => if Nat.eqb (ev_kind e) 1 && Nat.eqb (ev_id e) g then ev_n e else 0) tr).
+Definition tr_dones (tr : list tev) (g : nat) : nat :=
+  length (filter (fun e => Nat.eqb (ev_kind e) 2 && Nat.eqb (ev_id e) g) tr).
+Definition tr_groups (tr : list tev) : list nat :=
+  flat_map (fun e => if Nat.eqb (ev_kind e) 0 || Nat.eqb (ev_kind e) 8 then [ev_id e] else []) tr.
+Definition tr_ngor (tr : list tev) : nat := S (fold_left Nat.max (map ev_gid tr) 0).
+
+(** the program of goroutine g read off the trace, split in its producer, closer and consumer parts *)
+Definition of_gor (tr : list tev) (g : nat) : list tev := filter (fun e => Nat.eqb (ev_gid e) g) tr.
+Definition producer_of (evs : list tev) : proc :=
+  Producer (flat_map (fun e => if Nat.eqb (ev_kind e) 4 then [ev_id e] else []) evs)
+           (flat_map (fun e => if Nat.eqb (ev_kind e) 2 then [ev_id e] else []) evs).
+Definition closer_of (evs : list tev) : proc :=
+  let r := fold_right (fun e (acc : list nat * list (nat * list nat)) =>
+                         if Nat.eqb (ev_kind e) 5 then (ev_id e :: fst acc, snd acc)
+                         else if Nat.eqb (ev_kind e) 3 then ([], (ev_id e, fst acc) :: snd acc)
+                         else acc) ([], []) evs in
+  Closer (fst r) (snd r).
+Definition consumer_of (evs : list tev) : proc :=
+  Consumer (flat_map (fun e => if Nat.eqb (ev_kind e) 6 then [ev_id e] else []) evs).
+Definition tr_procs (tr : list tev) : list proc :=
+  flat_map (fun g => let evs := of_gor tr g in [producer_of evs; closer_of evs; consumer_of evs]) (seq 0 (tr_ngor tr)).
+
+Definition gact_eqb (a b : gact) : bool :=
+  match a, b with
+  | GPush x, GPush y | GDone x, GDone y | GWait x, GWait y | GClose x, GClose y | GEnd x, GEnd y => Nat.eqb x y
+  | _, _ => false
+  end.
+(** the action and the process index of an event (None: not an action of the protocol) *)
+Definition ev_act (e : tev) : option (nat * gact) :=
+  let g := ev_gid e in let x := ev_id e in
+  match ev_kind e with
+  | 4 => Some (3 * g, GPush x)
+  | 2 => Some (3 * g, GDone x)
+  | 3 => Some (3 * g + 1, GWait x)
+  | 5 => Some (3 * g + 1, GClose x)
+  | 6 => Some (3 * g + 2, GEnd x)
+  | _ => None
+  end.
+(** replay: the k-th protocol event must be the next action of its goroutine, and enabled *)
+Fixpoint tr_replay (c : cfg) (tr : list tev) : option cfg :=
+  match tr with
+  | [] => Some c
+  | e :: tr' =>
+      match ev_act e with
+      | None => tr_replay c tr'
+      | Some (i, a) =>
+          match nth_error (snd c) i with
+          | Some p => match head_act p with
+                      | Some (a', _) => if gact_eqb a a'
+                                        then match cstep c i with Some c' => tr_replay c' tr' | None => None end
+                                        else None
+                      | None => None
+                      end
+          | None => None
+          end
+      end
+  end.
+Definition tr_labels (tr : list tev) : list nat :=
+  flat_map (fun e => match ev_act e with Some (i, _) => [i] | None => [] end) tr.
+
+(** a recorded trace is accepted when: the programs read off it form a well-formed protocol instance, the
+    counter of every group was raised (Add) by exactly the number of Done called on it, the events in log
+    order are a run of the transition system, and that run is complete (every goroutine finished) *)
+Definition trace_ok (tr : list tev) : bool :=
+  let procs := tr_procs tr in
+  wf_cfg (tr_guard tr) (tr_iters tr) procs &&
+  forallb (fun g => Nat.eqb (tr_adds tr g) (tr_dones tr g)) (tr_groups tr) &&
+  match tr_replay (cinit procs) tr with
+  | Some c => cfinished c
+  | None => false
+  end.
+
+
+(** ---- the table combinator -> protocol instance.  Iterators are numbered inside one combinator.
+    [inst_std pushes m]: ONE output iterator 0 (its own group), one producer per element of [pushes] (the
+    i-th pushes [nth i pushes] batches, then Done), the WaitAndClose goroutine, m consumers (the reader and
+    its Split clones).  SortBatches, Concat, Rebatch, FilterEmpty, CompleteFileIterator, IBatchOver, LimitMemory,
+    Speed, PairTo, PairedWith, IMergeSequenceBatch: one producer; Pool (k inputs), MakeISliceWorker / MakeIWorker /
+    MakeIConditionalWorker (k workers), the intermediate iterator of FilterOn / FilterAnd (k workers) and of
+    IFragments, ReadSequencesBatchFromFiles (k readers): k producers.
+    [inst_divideon sched]: outputs 0 (true) and 1 (false), one producer registered on both (the k-th record goes
+    to output 0 iff [nth k sched]), one closer: Wait 0; Close 0; Wait 1; Close 1.
+    [inst_copytee n]: outputs 0 and 1 both protected by the group of 0; the producer pushes every batch on both;
+    the closer: Wait 0; Close 0; Close 1.
+    [inst_distribute m pushes]: a bare WaitGroup 0 (jobDone) protects the outputs 1..m created on the fly; one
+    producer; the closer: Wait 0; Close 1; ...; Close m. *)
+Definition inst_std (pushes : list nat) (m : nat) : list proc :=
+  map (fun n => Producer (repeat 0 n) [0]) pushes ++ [Closer [] [(0, [0])]] ++ repeat (Consumer [0]) m.
+Definition inst_divideon (sched : list bool) : list proc :=
+  [Producer (map (fun b : bool => if b then 0 else 1) sched) [0; 1]; Closer [] [(0, [0]); (1, [1])]; Consumer [0]; Consumer [1]].
+Definition inst_copytee (n : nat) : list proc :=
+  [Producer (concat (repeat [0; 1] n)) [0]; Closer [] [(0, [0; 1])]; Consumer [0]; Consumer [1]].
+Definition inst_distribute (m : nat) (pushes : list nat) : list proc :=
+  [Producer pushes [0]; Closer [] [(0, seq 1 m)]] ++ map (fun k => Consumer [k]) (seq 1 m).
+
+(** which instance of the table a recorded trace must contain (checked on the programs read off the trace):
+    [ShStd k]: an iterator x closed by "Wait x; Close x" with exactly k producers registered on x alone;
+    [ShSplit n]: moreover exactly n consumers observe the end of x; [ShDivide], [ShTee], [ShDist]: the closers of
+    DivideOn / CopyTee / Distribute with their single producer. *)
+Inductive shape := ShAny | ShStd (k : nat) | ShSplit (n : nat) | ShDivide | ShTee | ShDist.
+Definition countb {X} (f : X -> bool) (l : list X) : nat := length (filter f l).
+Definition is_prod_on (gs : list nat) (p : proc) : bool :=
+  match p with Producer _ ds => list_eqb Nat.eqb ds gs | _ => false end.
+Definition is_cons_on (x : nat) (p : proc) : bool := match p with Consumer es => memb x es | _ => false end.
+Definition std_closer (x : nat) (p : proc) : bool :=
+  match p with Closer [] [(g, [it])] => Nat.eqb g x && Nat.eqb it x | _ => false end.
+Definition shape_ok (sh : shape) (iters : list nat) (procs : list proc) : bool :=
+  match sh with
+  | ShAny => true
+  | ShStd k => existsb (fun x => existsb (std_closer x) procs && Nat.eqb (countb (is_prod_on [x]) procs) k) iters
+  | ShSplit n => existsb (fun x => existsb (std_closer x) procs && Nat.eqb (countb (is_prod_on [x]) procs) 1 &&
+                                   Nat.eqb (countb (is_cons_on x) procs) n) iters
+  | ShDivide => existsb (fun p => match p with
+                                  | Closer [] [(a, [a']); (b, [b'])] =>
+                                      Nat.eqb a a' && Nat.eqb b b' && negb (Nat.eqb a b) && Nat.eqb (countb (is_prod_on [a; b]) procs) 1
+                                  | _ => false
+                                  end) procs
+  | ShTee => existsb (fun p => match p with
+                               | Closer [] [(a, [a'; b])] => Nat.eqb a a' && negb (Nat.eqb a b) && Nat.eqb (countb (is_prod_on [a]) procs) 1
+                               | _ => false
+                               end) procs
+  | ShDist => existsb (fun p => match p with
+                                | Closer [] [(g, its)] => negb (memb g iters) && Nat.eqb (countb (is_prod_on [g]) procs) 1 &&
+                                                          forallb (fun it => memb it iters) its
+                                | _ => false
+                                end) procs
+  end.
+Definition trace_ok2 (st : shape * list tev) : bool :=
+  trace_ok (snd st) && shape_ok (fst st) (tr_iters (snd st)) (tr_procs (snd st)).
+(** compact rendering of an event for the generated files: ((goroutine * 4096 + object) * 16 + kind) * 4096 + n *)
+Definition tev_decode (x : N) : tev :=
+  (N.to_nat (N.div x 268435456), N.to_nat (N.modulo (N.div x 65536) 4096), N.to_nat (N.modulo (N.div x 4096) 16), N.to_nat (N.modulo x 4096)).
+Definition trace_ok2N (st : shape * list N) : bool := trace_ok2 (fst st, map tev_decode (snd st)).
+Fixpoint trace_mismatches_from (i : nat) (l : list (shape * list N)) : list nat :=
+  match l with
+  | [] => []
+  | t :: l' => let rest := trace_mismatches_from (S i) l' in if trace_ok2N t then rest else i :: rest
+  end.
+Definition trace_mismatches := trace_mismatches_from 0.
